@@ -139,9 +139,12 @@ BatchFails(cfg, media, n, reps, first) ==
       W    == Mat([i \in 1 .. k |-> Wire(media[i])], k)
       want == NumRepairs(cfg, media, n)
       f0   == IF first >= 0 \/ reps = <<>> THEN first ELSE reps[1].seq
+      \* repair packets beyond the expected number are still evaluated (against the interleaved cover) so that the
+      \* report says what is wrong with them, e.g. for a batch that should not have been accepted
+      upto == IF n >= 1 THEN Min(Len(reps), Min(k, n)) ELSE 0
   IN (IF Len(reps) = want THEN {} ELSE {<<0, "repair-count">>})
      \cup UNION {{<<r, c>> : c \in RepairFails(reps[r], Cover(k, n, r - 1), W, cfg, media[1].seq, (f0 + r - 1) % M)}
-                 : r \in 1 .. Min(want, Len(reps))}
+                 : r \in 1 .. upto}
 
 \* ------------------------------------------------------------------ deviation predicates (tags for KNOWN_FINDINGS.jsonl)
 \* a batch whose last index cannot be named in the 15+31+63-bit masks
